@@ -190,6 +190,9 @@ SCALED_CORE_PAIRS = [
     "SI<cnl::rounding_integer<i32, cnl::native_rounding_tag>,-8,2>, SI<cnl::rounding_integer<i16, cnl::native_rounding_tag>,-6,2>",
     "SI<cnl::int128_t,-70,2>, SI<i64,-60,2>", "SI<cnl::uint128_t,-100,2>, SI<cnl::uint128_t,-90,2>",
     "SI<cnl::elastic_integer<20>,-8,2>, i32", "i16, SI<cnl::elastic_integer<20>,-8,2>",
+    "SI<cnl::elastic_integer<12, unsigned>,-4,2>, SI<cnl::elastic_integer<10>,-6,2>",
+    "cnl::elastic_scaled_integer<8, cnl::power<-2>, unsigned>, cnl::elastic_scaled_integer<8, cnl::power<-2>>",
+    "SI<cnl::elastic_integer<30>,-10,2>, SI<cnl::elastic_integer<30, unsigned>,-10,2>",
 ]
 SCALED_CORE_SINGLES = ["SI<i32,-8,2>", "SI<i64,-70,2>", "SI<u16,3,2>", "SI<i8,-7,2>", "SI<u64,-32,2>", "SI<i64,40,2>",
                        "SI<cnl::elastic_integer<24>,-12,2>", "SI<cnl::elastic_integer<53>,-60,2>", "i32", "u64"]
@@ -201,6 +204,11 @@ SCALED_CORE_CMPS = [
     "cnl::elastic_integer<15>, cnl::elastic_integer<15, unsigned>", "cnl::elastic_integer<20>, i32", "u16, cnl::elastic_integer<9>",
     "cnl::elastic_integer<3, i8>, cnl::elastic_integer<60, u8>",
     "cnl::elastic_scaled_integer<20, cnl::power<-10>>, cnl::elastic_scaled_integer<12, cnl::power<-3>, unsigned>",
+    # a CNL number against a built-in integer that is wider than / of other signedness than its representation
+    "cnl::elastic_integer<8, unsigned>, i32", "cnl::elastic_integer<4>, i64", "cnl::elastic_integer<10>, u64",
+    "cnl::elastic_integer<33>, i16", "SI<u8,-8,2>, i32", "SI<i32,-16,2>, i64", "SI<i16,-4,2>, u32", "SI<u16,2,2>, i8",
+    "SI<i8,-2,10>, i32", "SI<cnl::elastic_integer<6, unsigned>,-3,2>, i64",
+    "cnl::elastic_scaled_integer<9, cnl::power<-4>, unsigned>, i32",
 ]
 
 
